@@ -277,27 +277,7 @@ func reachesAvoiding(ff *core.FnFacts, from, to ssa.Instruction, avoid func(a, b
 			}
 		}
 	}
-	seen := map[*ssa.BasicBlock]bool{}
-	var dfs func(b *ssa.BasicBlock) bool
-	dfs = func(b *ssa.BasicBlock) bool {
-		for _, s := range b.Succs {
-			if !ff.IsLiveEdge(b, s) || avoid(b, s) {
-				continue
-			}
-			if s == tb {
-				return true
-			}
-			if seen[s] {
-				continue
-			}
-			seen[s] = true
-			if dfs(s) {
-				return true
-			}
-		}
-		return false
-	}
-	return dfs(fb)
+	return ff.WalkFeasible([]*ssa.BasicBlock{fb}, avoid, func(b *ssa.BasicBlock) bool { return b == tb })
 }
 
 // edgeHas reports whether the edge a->b carries a fact matching pat.
